@@ -46,6 +46,9 @@ GEOMS: Dict[str, Any] = {
     "oh": ([8, 1], [[0.0, 0.0, 0.0], [0.97, 0.03, 0.02]]),      # doublet
     "o2": ([8, 8], [[0.0, 0.0, 0.0], [1.21, 0.03, 0.02]]),      # triplet
 }
+# two methane molecules 4.6 A apart (one input "molecule"): long-range pair terms (dispersion corrections) act between them
+_m = GEOMS["ch4"][1]
+GEOMS["ch4_dimer"] = ([6, 6] + [1] * 8, [_m[0], [_m[0][0] + 4.6, _m[0][1] + 0.3, _m[0][2] - 0.2]] + _m[1:] + [[a + 4.6, b + 0.3, c - 0.2] for a, b, c in _m[1:]])
 CHARGE = {"oh-": -1, "nh4+": 1}
 MULT = {"no": 2, "oh": 2, "o2": 3}
 
